@@ -336,6 +336,9 @@ class Proposal:
         intersection = self.intersection(other)
         return (intersection is not None) and (intersection == self)
 
+    def copy(self):
+        return Proposal(self.num, self.protocol_id, self.spi, list(self.transforms))
+
     def copy_without_dh_transforms(self):
         return Proposal(self.num, self.protocol_id, self.spi,
                         [x for x in self.transforms if x.type != Transform.Type.DH])
